@@ -108,6 +108,7 @@ def prog_constants(p, j=1, max_hist=4, max_cmds=3, unlocked_bug=False, selfdep_p
     d['RmFiles'] = sset([s(x) for x in p.get('rm', [])])
     d['DoEdits'] = sset([s(x) for x in p.get('doedits', [])])
     d['TmpFiles'] = sset([s(x) for x in p.get('tmpfiles', [])])
+    d['NoDir'] = sset([s(x) for x in p.get('nodir', [])])
     d['MaxHist'] = str(max_hist)
     d['MaxCmds'] = str(max_cmds)
     d['UnlockedBug'] = 'TRUE' if unlocked_bug else 'FALSE'
@@ -466,6 +467,23 @@ def fail_memo():
     }
 
 
+def nodir_prog():
+    """a target whose directory does not exist, built by the top-level default.do: output on stdout cannot be installed
+    (internal build-job error 209), output through $3 makes the script itself fail; the failure must be remembered"""
+    return {
+        'name': 'nodir',
+        'plain': ['s', 'gone/x', 'top'],
+        'rules': {'default.do': [{'gone/x': [ifchange('s'), out('stdout', 's')],
+                                  'top': [ifchange('gone/x'), out('stdout', 'gone/x')]},
+                                 {'gone/x': [ifchange('s'), out('stdout', 's'), exit_(0)],
+                                  'top': [ifchange('s'), out('stdout', 's')]}]},
+        'init': ['s', 'default.do'],
+        'cmds': [('ifchange', ['top'], False), ('ifchange', ['gone/x'], False), ('redo', ['top', 'gone/x'], True)],
+        'user': ['s'], 'rm': [], 'doedits': ['default.do'], 'nodir': ['gone/x'],
+        'bounds': (4, 3),
+    }
+
+
 def subdirs():
     """targets in a subdirectory: a specific rule beside the target that refers to ../s, the top-level default.do
     building into the subdirectory, and a sub/default.do that can be added (takes over) and removed again"""
@@ -651,7 +669,7 @@ def crash_family(window=False, stamp_window=False):
     return out_
 
 
-FAMILY_DEEP = [always2, fail_diamond, override2, stamp_toggle, stamped_deep, ifcreate_deep, do_recreate, subdirs, fan_shared, fail_memo]
+FAMILY_DEEP = [nodir_prog, always2, fail_diamond, override2, stamp_toggle, stamped_deep, ifcreate_deep, do_recreate, subdirs, fan_shared, fail_memo]
 
 
 def deep_programs():
